@@ -347,8 +347,20 @@ func ruleEpcUpkeep(c *Ctx) {
 					if f.Name() == "LoadSyncCommittees" {
 						load = x.Pos()
 						if len(x.Args) == 1 {
-							if id, ok := ast.Unparen(x.Args[0]).(*ast.Ident); ok && id.Name == "post" {
-								loadArgOK = true
+							// the argument is the variable that received UpgradeToAltair's result
+							if id, ok := ast.Unparen(x.Args[0]).(*ast.Ident); ok {
+								ast.Inspect(ifs.Body, func(k ast.Node) bool {
+									if as, ok := k.(*ast.AssignStmt); ok && len(as.Rhs) == 1 && len(as.Lhs) >= 1 {
+										if cl, ok := ast.Unparen(as.Rhs[0]).(*ast.CallExpr); ok {
+											if g := calleeFunc(info, cl); g != nil && g.Name() == "UpgradeToAltair" {
+												if l, ok := as.Lhs[0].(*ast.Ident); ok && info.ObjectOf(l) == info.ObjectOf(id) {
+													loadArgOK = true
+												}
+											}
+										}
+									}
+									return true
+								})
 							}
 						}
 					}
@@ -465,9 +477,12 @@ func ruleEpcUpkeep(c *Ctx) {
 	okN := false
 	ast.Inspect(fd.Body, func(n ast.Node) bool {
 		if as, ok := n.(*ast.AssignStmt); ok && len(as.Rhs) == 1 {
-			if be, ok := ast.Unparen(as.Rhs[0]).(*ast.BinaryExpr); ok && be.Op == token.ADD && strings.HasSuffix(types.ExprString(be.X), "CurrentEpoch.Epoch") {
-				if tv := info.Types[be.Y]; tv.Value != nil && tv.Value.String() == "1" {
-					okN = true
+			// <…>.CurrentEpoch.Epoch + 1 in any spelling
+			if p, ok := exprPoly(info, as.Rhs[0], nil, nil, 0); ok && p[""] == 1 && len(p) == 2 {
+				for a, cf := range p {
+					if a != "" && cf == 1 && strings.HasSuffix(a, "CurrentEpoch.Epoch") {
+						okN = true
+					}
 				}
 			}
 		}
